@@ -138,43 +138,131 @@ func runC14(c *Ctx) {
 	if fd := p.FuncDecl(pkg, "derivedSet", "InheritFrom"); fd == nil {
 		r.Unresolved("derivedset/unsubscribe-removes", pkg+".derivedSet.InheritFrom", "method not found")
 	} else {
-		// InheritFrom together with the unexported helpers it delegates to (bounded):
+		// InheritFrom together with the unexported helpers and methods it delegates to (bounded), called
+		// or handed on as method values:
 		//  (1) the source subscription forwards X.Apply(mutations) of a per-source set X to inheritMutations
 		//  (2) a remover forwards WithDeletedElements(X) of the same X to inheritMutations
 		//  (3) the derived set is never changed with X directly (that would bypass the occurrence counts)
-		var bodies []*ast.BlockStmt
-		seenFd := map[*ast.FuncDecl]bool{fd: true}
-		var collect func(b *ast.BlockStmt, depth int)
-		collect = func(b *ast.BlockStmt, depth int) {
-			bodies = append(bodies, b)
-			if depth >= 2 {
+		// X is a location: a local variable, or a field of a per-source record.
+		type dsFrame struct {
+			body  *ast.BlockStmt
+			sites []struct {
+				parent *dsFrame
+				pos    token.Pos
+			}
+		}
+		root := &dsFrame{body: fd.Body}
+		frames := []*dsFrame{root}
+		byFd := map[*ast.FuncDecl]*dsFrame{fd: root}
+		var collect func(fr *dsFrame, depth int)
+		enter := func(fr *dsFrame, hd *ast.FuncDecl, pos token.Pos, depth int) {
+			if hd == nil || hd.Body == nil || hd.Name.IsExported() || hd.Name.Name == "inheritMutations" || p.decls().infoOf[hd] != info {
 				return
 			}
-			ast.Inspect(b, func(n ast.Node) bool {
+			sub := byFd[hd]
+			fresh := sub == nil
+			if fresh {
+				sub = &dsFrame{body: hd.Body}
+				byFd[hd] = sub
+				frames = append(frames, sub)
+			}
+			if sub == root {
+				return
+			}
+			sub.sites = append(sub.sites, struct {
+				parent *dsFrame
+				pos    token.Pos
+			}{fr, pos})
+			if fresh && depth < 3 {
+				collect(sub, depth+1)
+			}
+		}
+		collect = func(fr *dsFrame, depth int) {
+			ast.Inspect(fr.body, func(n ast.Node) bool {
 				if cl, ok := n.(*ast.CallExpr); ok {
 					if fn := staticCallee(info, cl); fn != nil {
-						if hd := p.decls().byFunc[fn.Origin()]; hd != nil && !hd.Name.IsExported() && !seenFd[hd] && hd.Name.Name != "inheritMutations" && p.decls().infoOf[hd] == info {
-							seenFd[hd] = true
-							collect(hd.Body, depth+1)
+						enter(fr, p.decls().byFunc[fn.Origin()], cl.Pos(), depth)
+					}
+				}
+				return true
+			})
+			var walkCbs func(n ast.Node)
+			walkCbs = func(n ast.Node) {
+				for _, cb := range callbacksIn(p, info, n) {
+					if cb.Decl != nil {
+						if _, isCall := cb.Node.(*ast.CallExpr); !isCall {
+							enter(fr, cb.Decl, cb.Node.Pos(), depth)
+						}
+					} else if lit, isLit := cb.Node.(*ast.FuncLit); isLit {
+						walkCbs(lit.Body)
+					}
+				}
+			}
+			walkCbs(fr.body)
+		}
+		collect(root, 0)
+		var bodies []*ast.BlockStmt
+		for _, fr := range frames {
+			bodies = append(bodies, fr.body)
+		}
+		loc := func(e ast.Expr) types.Object {
+			switch x := ast.Unparen(e).(type) {
+			case *ast.Ident:
+				return objOfIdent(info, x)
+			case *ast.SelectorExpr:
+				if sel := info.Selections[x]; sel != nil && sel.Kind() == types.FieldVal {
+					if v, isVar := sel.Obj().(*types.Var); isVar {
+						return v.Origin()
+					}
+				}
+			}
+			return nil
+		}
+		isNewSet := func(e ast.Expr) bool { return strings.HasPrefix(rawKey(e), "ds.NewSet[") }
+		perSource := map[types.Object]bool{}
+		type created struct {
+			fr  *dsFrame
+			pos token.Pos
+		}
+		createdAt := map[types.Object][]created{}
+		applied, removed := map[types.Object]bool{}, map[types.Object]bool{}
+		var direct []string
+		for _, fr := range frames {
+			ast.Inspect(fr.body, func(n ast.Node) bool {
+				switch x := n.(type) {
+				case *ast.AssignStmt:
+					if len(x.Lhs) == 1 && len(x.Rhs) == 1 && isNewSet(x.Rhs[0]) {
+						if o := loc(x.Lhs[0]); o != nil {
+							perSource[o] = true
+							createdAt[o] = append(createdAt[o], created{fr, x.Pos()})
+						}
+					}
+				case *ast.KeyValueExpr:
+					if id, ok := x.Key.(*ast.Ident); ok && isNewSet(x.Value) {
+						if o, isVar := info.Uses[id].(*types.Var); isVar && o.IsField() {
+							o = o.Origin()
+							perSource[o] = true
+							createdAt[o] = append(createdAt[o], created{fr, x.Pos()})
 						}
 					}
 				}
 				return true
 			})
 		}
-		collect(fd.Body, 0)
-		perSource := map[types.Object]bool{}
-		applied, removed := map[types.Object]bool{}, map[types.Object]bool{}
-		var direct []string
-		for _, b := range bodies {
-			ast.Inspect(b, func(n ast.Node) bool {
-				if as, ok := n.(*ast.AssignStmt); ok && len(as.Lhs) == 1 && len(as.Rhs) == 1 && strings.HasPrefix(rawKey(as.Rhs[0]), "ds.NewSet[") {
-					if o := objOfIdent(info, as.Lhs[0]); o != nil {
-						perSource[o] = true
-					}
-				}
+		derivedRecv := func(cl *ast.CallExpr) bool {
+			fn := staticCallee(info, cl)
+			if fn == nil {
+				return false
+			}
+			sig, _ := fn.Type().(*types.Signature)
+			if sig == nil || sig.Recv() == nil {
+				return false
+			}
+			switch typeName(sig.Recv().Type()) {
+			case "derivedSet", "set", "readableSet":
 				return true
-			})
+			}
+			return false
 		}
 		for _, b := range bodies {
 			ast.Inspect(b, func(n ast.Node) bool {
@@ -190,19 +278,19 @@ func runC14(c *Ctx) {
 							return true
 						}
 						k2 := rawKey(c2.Fun)
-						if se, ok := ast.Unparen(c2.Fun).(*ast.SelectorExpr); ok && se.Sel.Name == "Apply" && perSource[objOfIdent(info, se.X)] {
-							applied[objOfIdent(info, se.X)] = true
+						if se, ok := ast.Unparen(c2.Fun).(*ast.SelectorExpr); ok && se.Sel.Name == "Apply" && perSource[loc(se.X)] {
+							applied[loc(se.X)] = true
 						}
-						if strings.HasSuffix(k2, ".WithDeletedElements") && len(c2.Args) == 1 && perSource[objOfIdent(info, c2.Args[0])] {
-							removed[objOfIdent(info, c2.Args[0])] = true
+						if strings.HasSuffix(k2, ".WithDeletedElements") && len(c2.Args) == 1 && perSource[loc(c2.Args[0])] {
+							removed[loc(c2.Args[0])] = true
 						}
 						return true
 					})
 					return true
 				}
-				if se, ok := ast.Unparen(cl.Fun).(*ast.SelectorExpr); ok && isRecvName(se.X, "s") {
+				if _, ok := ast.Unparen(cl.Fun).(*ast.SelectorExpr); ok && derivedRecv(cl) {
 					for _, a := range cl.Args {
-						if perSource[objOfIdent(info, a)] {
+						if perSource[loc(a)] {
 							direct = append(direct, p.posStr(cl.Pos())+" "+exprKey(cl))
 						}
 					}
@@ -217,87 +305,219 @@ func runC14(c *Ctx) {
 			}
 		}
 		// (4) both the source's unsubscribe function and the remover are handed out: each is a value
-		// (variable or literal) that appears in an append(...) or a return of these functions
-		handedOut := func(isValue func(e ast.Expr) bool) bool {
-			out := false
-			for _, b := range bodies {
-				ast.Inspect(b, func(n ast.Node) bool {
-					var exprs []ast.Expr
-					switch x := n.(type) {
-					case *ast.CallExpr:
-						if rawKey(x.Fun) == "append" || strings.HasSuffix(rawKey(x.Fun), ".Batch") {
-							exprs = x.Args
-						}
-					case *ast.ReturnStmt:
-						exprs = x.Results
-					}
-					for _, e := range exprs {
-						if isValue(e) {
-							out = true
-						}
-					}
-					return true
-				})
-			}
-			return out
-		}
-		valueOf := func(match func(ast.Expr) bool) func(ast.Expr) bool {
-			vars := map[types.Object]bool{}
-			for _, b := range bodies {
-				ast.Inspect(b, func(n ast.Node) bool {
-					if as, ok := n.(*ast.AssignStmt); ok && len(as.Lhs) == len(as.Rhs) {
-						for i, rhs := range as.Rhs {
-							if match(rhs) {
-								if o := objOfIdent(info, as.Lhs[i]); o != nil {
-									vars[o] = true
-								}
-							}
-						}
-					}
-					return true
-				})
-			}
-			return func(e ast.Expr) bool { return match(e) || vars[objOfIdent(info, e)] }
-		}
-		isRemover := valueOf(func(e ast.Expr) bool {
-			lit, ok := ast.Unparen(e).(*ast.FuncLit)
-			return ok && strings.Contains(rawKey2(lit.Body), ".WithDeletedElements(")
-		})
-		isUnsub := valueOf(func(e ast.Expr) bool {
+		// (variable, field, literal or method value) that appears in an append(...) or a return of these
+		// functions, or is called by a function value handed out that way
+		isOnUpdate := func(e ast.Expr) bool {
 			c, ok := ast.Unparen(e).(*ast.CallExpr)
 			return ok && strings.HasSuffix(rawKey(c.Fun), ".OnUpdate")
-		})
-		if ok && !(handedOut(isRemover) && handedOut(isUnsub)) {
-			ok = false
 		}
-		// (5) the tracking set is per source: a set that is applied inside a loop over the sources must be
-		// created inside that loop (or in a helper called from it). One set shared by all sources drops
-		// the second occurrence of an element, so the occurrence count is one although two sources hold it.
-		shared := ""
+		unsubLocs, litLocs := map[types.Object]bool{}, map[types.Object]*ast.FuncLit{}
 		for _, b := range bodies {
 			ast.Inspect(b, func(n ast.Node) bool {
-				rs, ok := n.(*ast.RangeStmt)
-				if !ok {
-					return true
+				if as, ok := n.(*ast.AssignStmt); ok && len(as.Lhs) == len(as.Rhs) {
+					for i, rhs := range as.Rhs {
+						o := loc(as.Lhs[i])
+						if o == nil {
+							continue
+						}
+						if isOnUpdate(rhs) {
+							unsubLocs[o] = true
+						}
+						if lit, isLit := ast.Unparen(rhs).(*ast.FuncLit); isLit {
+							litLocs[o] = lit
+						}
+					}
 				}
-				ast.Inspect(rs.Body, func(m ast.Node) bool {
-					se, ok := m.(*ast.SelectorExpr)
-					if !ok || se.Sel.Name != "Apply" {
-						return true
-					}
-					o := objOfIdent(info, se.X)
-					if o == nil || !perSource[o] {
-						return true
-					}
-					if o.Pos() < rs.Body.Pos() || o.Pos() > rs.Body.End() {
-						shared = fmt.Sprintf("%s is created at %s, outside the loop over the sources at %s that applies every source's updates to it", o.Name(), p.posStr(o.Pos()), p.posStr(rs.Pos()))
-					}
-					return true
-				})
 				return true
 			})
 		}
+		unsubOut, removerOut := false, false
+		// (6) order: the subscription is stopped before the source's elements are removed (an update
+		// delivered in between would be inherited and never removed again). Events are recorded at the
+		// place they are handed out (container, argument index) and, inside one function value, at
+		// the call that performs them.
+		type dsEvent struct {
+			unsub     bool
+			body      *ast.BlockStmt // frame body of the container
+			container ast.Node
+			idx       int
+			inBody    *ast.BlockStmt // the handed-out function value's body (nil: the value itself)
+			call      ast.Node
+		}
+		var events []dsEvent
+		type inner struct {
+			unsub bool
+			call  ast.Node
+		}
+		var judgeBody func(b *ast.BlockStmt, depth int) []inner
+		judgeBody = func(b *ast.BlockStmt, depth int) []inner {
+			var out []inner
+			ast.Inspect(b, func(n ast.Node) bool {
+				if c, ok := n.(*ast.CallExpr); ok {
+					if unsubLocs[loc(c.Fun)] {
+						out = append(out, inner{true, c})
+					}
+					if strings.HasSuffix(rawKey(c.Fun), ".WithDeletedElements") {
+						out = append(out, inner{false, c})
+					}
+					if lit := litLocs[loc(c.Fun)]; lit != nil && depth < 2 {
+						for _, in := range judgeBody(lit.Body, depth+1) {
+							out = append(out, inner{in.unsub, c})
+						}
+					}
+				}
+				return true
+			})
+			return out
+		}
+		for _, b := range bodies {
+			ast.Inspect(b, func(n ast.Node) bool {
+				var exprs []ast.Expr
+				switch x := n.(type) {
+				case *ast.CallExpr:
+					if rawKey(x.Fun) == "append" || strings.HasSuffix(rawKey(x.Fun), ".Batch") {
+						exprs = x.Args
+					}
+				case *ast.ReturnStmt:
+					exprs = x.Results
+				}
+				for idx, e := range exprs {
+					if isOnUpdate(e) || unsubLocs[loc(e)] {
+						events = append(events, dsEvent{unsub: true, body: b, container: n, idx: idx})
+					}
+					var cbBodies []*ast.BlockStmt
+					if lit := litLocs[loc(e)]; lit != nil {
+						cbBodies = append(cbBodies, lit.Body)
+					}
+					skip := false
+					if _, isCall := ast.Unparen(e).(*ast.CallExpr); isCall && !isOnUpdate(e) {
+						if t := info.TypeOf(e); t != nil {
+							if _, isSig := t.Underlying().(*types.Signature); !isSig {
+								skip = true
+							}
+						}
+					}
+					if !skip {
+						for _, cb := range callbacksIn(p, info, e) {
+							if c, isCall := cb.Node.(*ast.CallExpr); isCall && isOnUpdate(c) {
+								continue
+							}
+							cbBodies = append(cbBodies, cb.Body)
+						}
+					}
+					for _, cbb := range cbBodies {
+						for _, in := range judgeBody(cbb, 0) {
+							events = append(events, dsEvent{unsub: in.unsub, body: b, container: n, idx: idx, inBody: cbb, call: in.call})
+						}
+					}
+				}
+				return true
+			})
+		}
+		orderBad := ""
+		for _, ev := range events {
+			if ev.unsub {
+				unsubOut = true
+			} else {
+				removerOut = true
+			}
+		}
+		for _, rm := range events {
+			if rm.unsub {
+				continue
+			}
+			for _, us := range events {
+				if !us.unsub || us.body != rm.body {
+					continue
+				}
+				switch {
+				case us.container == rm.container && us.idx == rm.idx && us.inBody != nil && us.inBody == rm.inBody:
+					// inside one function value: the removal is reached only through the unsubscribe call
+					cf := newFuncCFGPlain(p, info, us.inBody, pkg+".derivedSet.InheritFrom$detach")
+					rpt, okr := cf.PointOf(rm.call)
+					if !okr {
+						continue
+					}
+					if _, found := cf.PathFromEntryAvoiding(rpt, func(n ast.Node) bool {
+						hit := false
+						ast.Inspect(n, func(m ast.Node) bool {
+							hit = hit || m == us.call
+							return !hit
+						})
+						return hit
+					}, nil); found {
+						orderBad = fmt.Sprintf("%s: the elements inherited from the source are removed on a path that has not stopped the subscription yet (%s)", p.posStr(rm.call.Pos()), p.posStr(us.call.Pos()))
+					}
+				case us.container == rm.container && us.idx != rm.idx:
+					if us.idx > rm.idx {
+						orderBad = fmt.Sprintf("%s: the remover is handed out (and so run) before the function that stops the subscription", p.posStr(rm.container.Pos()))
+					}
+				case us.container != rm.container:
+					if us.container.Pos() > rm.container.Pos() {
+						orderBad = fmt.Sprintf("%s: the remover is handed out (and so run) before the function that stops the subscription", p.posStr(rm.container.Pos()))
+					}
+				}
+			}
+		}
+		if ok && !(removerOut && unsubOut) {
+			ok = false
+		}
+		// (5) the tracking set is per source: when the sources are subscribed to in a loop, the set that
+		// tracks one source's elements is created inside that loop as well (in the loop body, or in a
+		// helper reached only from it). One set shared by all sources drops the second occurrence of an
+		// element, so the occurrence count is one although two sources hold it.
+		var loops []*ast.RangeStmt
+		ast.Inspect(fd.Body, func(n ast.Node) bool {
+			if rs, ok := n.(*ast.RangeStmt); ok {
+				loops = append(loops, rs)
+			}
+			return true
+		})
+		var inLoop func(fr *dsFrame, pos token.Pos, depth int) bool
+		inLoop = func(fr *dsFrame, pos token.Pos, depth int) bool {
+			if fr == root {
+				for _, rs := range loops {
+					if rs.Body.Pos() <= pos && pos <= rs.Body.End() {
+						return true
+					}
+				}
+				return false
+			}
+			if len(fr.sites) == 0 || depth > 6 {
+				return false
+			}
+			for _, st := range fr.sites {
+				if !inLoop(st.parent, st.pos, depth+1) {
+					return false
+				}
+			}
+			return true
+		}
+		subscribedInLoop := false
+		for _, fr := range frames {
+			ast.Inspect(fr.body, func(n ast.Node) bool {
+				if c, ok := n.(*ast.CallExpr); ok && isOnUpdate(c) && inLoop(fr, c.Pos(), 0) {
+					subscribedInLoop = true
+				}
+				return true
+			})
+		}
+		shared := ""
+		if subscribedInLoop {
+			for o, cs := range createdAt {
+				if !applied[o] {
+					continue
+				}
+				for _, c := range cs {
+					if !inLoop(c.fr, c.pos, 0) {
+						shared = fmt.Sprintf("%s is created at %s, outside the loop over the sources that subscribes to every source and applies its updates to it", o.Name(), p.posStr(c.pos))
+					}
+				}
+			}
+		}
 		switch {
+		case ok && orderBad != "":
+			r.Fail("derivedset/unsubscribe-removes", pkg+".derivedSet.InheritFrom", p.posStr(fd.Pos()), "unsubscribing a source must stop the subscription before it removes the source's elements: an update delivered in between is inherited and never removed again; "+orderBad)
 		case shared != "":
 			r.Fail("derivedset/unsubscribe-removes", pkg+".derivedSet.InheritFrom", p.posStr(fd.Pos()), "one tracking set is shared by all sources ("+shared+"): an element held by two sources is counted once, and disappears from the derived set when one of them drops it")
 		case len(direct) > 0:
